@@ -21,10 +21,10 @@ def bits(b):
     return "".join(ch for ch, m in (("v", 1), ("t", 2), ("m", 4)) if b & m) or "-"
 
 
-def run_trace(rep, work, exe, d, prop, tier, label, gen, cfgbits, nrand, seed, idx):
+def run_trace(rep, work, exe, d, prop, tier, label, gen, cfgbits, nrand, seed, idx, vec="flat"):
     sub = work.sub("hy%d" % idx)
     C.stage_dir(d, sub)
-    args = ["hybrid", "-n", nrand, "-seed", seed, "-out", os.path.join(sub, "trace.ndjson"), "-cfg", cfgbits]
+    args = ["hybrid", "-n", nrand, "-seed", seed, "-out", os.path.join(sub, "trace.ndjson"), "-cfg", cfgbits, "-vec", vec]
     if gen:
         gp = os.path.join(sub, "gen.jsonl")
         open(gp, "w").write("\n".join(gen) + "\n")
